@@ -35,6 +35,12 @@ def sample_frames(rng):
         out["props", style] = acdev.resp_frame(3, bytes([0xB1, 2, 0x09, 0, 0, 1, 25, 0x42, 0, 0, 1, 2, rng.randrange(256)]), style)
         out["energy", style] = acdev.resp_frame(3, bytes([0xC1, 0x21, 0x01, 0x44, 0, 0, 0x12, 0x34, 0, 0, 0, 0, 0, 0, 0, 0x56, 0, 7, 0x89, 0]), style)
         out["humidity", style] = acdev.resp_frame(3, bytes([0xC1, 0x21, 0x01, 0x45, rng.randrange(1, 100), 0, 0, 0]), style)
+    # the same kinds in frames of other types (0x02 control, 0x04 / 0x05 / 0x06 reports): the library dispatches on the response id whatever the type
+    for ft in (2, 4, 5, 6):
+        style = "crc" if ft % 2 == 0 else "sum"
+        out["state", f"{style}/ftype{ft}"] = acdev.resp_frame(ft, acdev.encode_state(st, 24), style)
+        out["humidity", f"{style}/ftype{ft}"] = acdev.resp_frame(ft, bytes([0xC1, 0x21, 0x01, 0x45, rng.randrange(1, 100), 0, 0, 0]), style)
+        out["energy", f"{style}/ftype{ft}"] = acdev.resp_frame(ft, bytes([0xC1, 0x21, 0x01, 0x44, 0, 0, 0x12, 0x34, 0, 0, 0, 0, 0, 0, 0, 0x56, 0, 7, 0x89, 0]), style)
     # the same kinds once more with a body check byte at its boundary values 0x00 / 0xFF (searched for, not forced)
     for style in ("crc", "sum"):
         for want in (0x00, 0xFF):
@@ -159,20 +165,28 @@ def collect(ctx: Ctx, cs):
             g = corrupt(f, pos, sub, fix)
             ac.replies = [g]
             raised = "none"
+            entry = "refresh"
             try:
                 if rich and k % 7 == 6:
                     await d.get_capabilities()          # a capability re-query whose only reply is the corrupted frame, then the refresh
-                await d.refresh()
+                if not hist and not rich and k % 5 == 4:
+                    # the object is offline (nothing valid was ever received); another operation than refresh gets the corrupted frame as its only reply
+                    entry = ["get_capabilities", "apply", "start_self_clean", "toggle_display"][(k // 5) % 4]
+                    await getattr(d, entry)()
+                    if entry == "toggle_display":
+                        entry = "toggle_display (ends with a refresh)"
+                else:
+                    await d.refresh()
             except Exception as e:  # noqa: BLE001
                 raised = type(e).__name__
             after = expose(d)
             vectors.append({"kind": kind, "style": style, "orig": B(f), "frame": B(g), "pos": pos, "sub": sub, "fix": fix,
                             "same": before == after, "online": bool(d.online), "supported": bool(d.supported),
-                            "raised": raised, "history": hist, "learned_capabilities": rich, "requery": bool(rich and k % 7 == 6)})
+                            "raised": raised, "history": hist, "learned_capabilities": rich, "requery": bool(rich and k % 7 == 6), "entry": entry})
             if d._lan._protocol:
                 d._lan._disconnect()
 
-    vloop.run(loop, go())
+    vloop.run(loop, go(), timeout_steps=max(2_000_000, 400 * len(cs)))      # one loop for all cases: the step budget scales with them
     return vectors
 
 
